@@ -25,11 +25,12 @@ Record obs := mkObs {
   o_inh : list (Z * Z);               (* slot -> back-off deadline implied by the answers so far *)
   o_snap : nat;                       (* index of the next snapshot *)
   o_idx : Z;                          (* index of the current record *)
+  o_bal : Z * Z * list Z;             (* balancer pass in this block: must-dispose flag, pre-heat requests wanted (-1: no pass), pre-heat rids seen *)
   o_ok : bool; o_why : Z }.
 
 Definition bad_obs (o : obs) (why : Z) : obs :=
   if o_ok o then mkObs (o_now o) (o_slot_eni o) (o_led o) (o_gone o) (o_unreq o) (o_rr o) (o_held o) (o_reqs o) (o_calls o)
-                       (o_fault o) (o_inh o) (o_snap o) (o_idx o) false (why * 100000 + o_idx o) else o.
+                       (o_fault o) (o_inh o) (o_snap o) (o_idx o) (o_bal o) false (why * 100000 + o_idx o) else o.
 Definition req_ok (o : obs) (b : bool) (why : Z) : obs := if b then o else bad_obs o why.
 
 Fixpoint assoc (k : Z) (l : list (Z * Z)) : Z := match l with [] => 0 | (a, b) :: r => if a =? k then b else assoc k r end.
@@ -44,7 +45,7 @@ Definition is_held (o : obs) (fam a : Z) : bool :=
   existsb (fun h => match h with (_, f, b) => (f =? fam) && (b =? a) end) (o_held o).
 
 Definition upd (o : obs) now se ld gone unreq rr held reqs calls fault inh :=
-  mkObs now se ld gone unreq rr held reqs calls fault inh (o_snap o) (o_idx o) (o_ok o) (o_why o).
+  mkObs now se ld gone unreq rr held reqs calls fault inh (o_snap o) (o_idx o) (o_bal o) (o_ok o) (o_why o).
 
 (* ---- the clause evaluated when an address is handed to a pod (C01) -------------------------- *)
 Definition handout_code (o : obs) (pod eni fam a : Z) : Z :=
@@ -111,8 +112,27 @@ Definition add_assigned (o : obs) (e : Z) (i4 i6 : list Z) (prim : Z) : list led
   | None => put_led (mkLed e i4 i6 prim) (o_led o)
   end.
 
+Definition set_bal (o : obs) (b : Z * Z * list Z) : obs :=
+  mkObs (o_now o) (o_slot_eni o) (o_led o) (o_gone o) (o_unreq o) (o_rr o) (o_held o) (o_reqs o) (o_calls o)
+        (o_fault o) (o_inh o) (o_snap o) (o_idx o) b (o_ok o) (o_why o).
+(* Usage() of an interface as the balancer reads it, on the implementation's own snapshot *)
+Definition snap_usage (c : cfg) (x : ssnap) : Z * Z :=
+  if (x_eni x =? 0) || negb (x_st x =? 2) then (0, 0)
+  else let es := if c_on4 c then x_4 x else if c_on6 c then x_6 x else [] in
+       (len (filter (fun e => ent_owner e =? 0) es), len (filter (fun e => negb (ent_owner e =? 0)) es)).
+
 Definition obs_step1 (prop : Z) (c : cfg) (snaps : list (list ssnap)) (o : obs) (r : list Z) : obs :=
   match r with
+  | 6 :: _ =>
+      (* a balancer pass: with more idle addresses than max_pool_size it must dispose; below min_pool_size
+         (and below the node's total) it must ask for the difference *)
+      match nth_error snaps (pred (o_snap o)) with
+      | Some ss =>
+          let us := map (snap_usage c) ss in
+          let idle := fold_left Z.add (map fst us) 0 in
+          let inuse := fold_left Z.add (map snd us) 0 in
+          set_bal o (if 0 <? idle - c_max c then 1 else 0, if c_tot c <=? idle + inuse then 0 else Z.max 0 (c_min c - idle), [])
+      | None => o end
   | 1 :: rid :: pod :: _ =>
       upd o (o_now o) (o_slot_eni o) (o_led o) (o_gone o) (o_unreq o) (o_rr o) (o_held o)
           (mkRq rid pod 0 false :: o_reqs o) (o_calls o) (o_fault o) (o_inh o)
@@ -137,6 +157,7 @@ Definition obs_step1 (prop : Z) (c : cfg) (snaps : list (list ssnap)) (o : obs) 
         upd o1 (o_now o1) (o_slot_eni o1) (o_led o1) (o_gone o1) (o_unreq o1) (o_rr o1) held reqs (o_calls o1) (o_fault o1) (o_inh o1)
       else upd o (o_now o) (o_slot_eni o) (o_led o) (o_gone o) (o_unreq o) (o_rr o) (o_held o) reqs (o_calls o) (o_fault o) (o_inh o)
   | 20 :: i :: rid :: pod :: nc :: _ :: _ :: acc :: _ =>
+      let o := match o_bal o with (d, w, seen) => if (nc =? 1) && negb (memz rid seen) then set_bal o (d, w, rid :: seen) else o end in
       if acc =? 1 then
         let reqs := if existsb (fun q => q_rid q =? rid) (o_reqs o)
                     then map (fun q => if q_rid q =? rid then mkRq rid (q_pod q) i (q_done q) else q) (o_reqs o)
@@ -214,11 +235,16 @@ Definition obs_step1 (prop : Z) (c : cfg) (snaps : list (list ssnap)) (o : obs) 
             (o_held o) (o_reqs o) (o_calls o) (o_fault o) (o_inh o)
       else o
   | 21 :: i :: n :: ret :: whole :: ips =>
+      let o := match o_bal o with (d, w, seen) => set_bal o (0, w, seen) end in
       if prop =? 6 then
         let '(m4, m6) := two_lists ips in
         req_ok o (negb (existsb (is_held o 4) m4 || existsb (is_held o 6) m6)) 621
       else o
   | 99 :: _ =>
+      let o := if prop =? 7 then
+                 match o_bal o with
+                 | (d, w, seen) => req_ok (req_ok o (d =? 0) 706) ((w <? 0) || (len seen =? w)) 707
+                 end else o in
       let o1 :=
         match nth_error snaps (o_snap o) with
         | None => bad_obs o 990
@@ -254,20 +280,20 @@ Definition obs_step1 (prop : Z) (c : cfg) (snaps : list (list ssnap)) (o : obs) 
             else o
         end in
       mkObs (o_now o1) (o_slot_eni o1) (o_led o1) (o_gone o1) (o_unreq o1) (o_rr o1) (o_held o1) (o_reqs o1) (o_calls o1)
-            (o_fault o1) (o_inh o1) (S (o_snap o1)) (o_idx o1) (o_ok o1) (o_why o1)
+            (o_fault o1) (o_inh o1) (S (o_snap o1)) (o_idx o1) (0, -1, []) (o_ok o1) (o_why o1)
   | _ => o
   end.
 
 Definition obs_step (prop : Z) (c : cfg) (snaps : list (list ssnap)) (o : obs) (r : list Z) : obs :=
   let o1 := obs_step1 prop c snaps o r in
   mkObs (o_now o1) (o_slot_eni o1) (o_led o1) (o_gone o1) (o_unreq o1) (o_rr o1) (o_held o1) (o_reqs o1) (o_calls o1)
-        (o_fault o1) (o_inh o1) (o_snap o1) (o_idx o1 + 1) (o_ok o1) (o_why o1).
+        (o_fault o1) (o_inh o1) (o_snap o1) (o_idx o1 + 1) (o_bal o1) (o_ok o1) (o_why o1).
 
 Definition chk_pool (prop : Z) (i out : list Z) : bool :=
   match dec_case i with
   | Some (c, _, rs) =>
       let snaps := all_snaps (S (length rs)) (length (c_types c)) out in
-      o_ok (fold_left (obs_step prop c snaps) rs (mkObs 0 [] [] [] [] [] [] [] [] false [] 0 0 true 0))
+      o_ok (fold_left (obs_step prop c snaps) rs (mkObs 0 [] [] [] [] [] [] [] [] false [] 0 0 (0, -1, []) true 0))
   | None => false
   end.
 
@@ -280,6 +306,6 @@ Definition why_pool (prop : Z) (i out : list Z) : Z :=
   match dec_case i with
   | Some (c, _, rs) =>
       let snaps := all_snaps (S (length rs)) (length (c_types c)) out in
-      o_why (fold_left (obs_step prop c snaps) rs (mkObs 0 [] [] [] [] [] [] [] [] false [] 0 0 true 0))
+      o_why (fold_left (obs_step prop c snaps) rs (mkObs 0 [] [] [] [] [] [] [] [] false [] 0 0 (0, -1, []) true 0))
   | None => -1
   end.
